@@ -33,7 +33,8 @@ ASSUMPTIONS = [
 ARITY_ERRORS = {"wrong-arg-count", "missing-parameter", "wrong-keyword-args",
                 "duplicate-keyword-argument"}
 KINDS = ["function", "method", "classmethod", "staticmethod", "constructor",
-         "stub-function", "stub-method"]
+         "stub-function", "stub-method", "new", "new-inherited",
+         "constructor-inherited", "new-instance-inherited"]
 
 
 def all_signatures(max_each=2):
@@ -184,6 +185,30 @@ def build_module(sig, kind, shapes):
     elif kind == "staticmethod":
       lines += ["  @staticmethod", "  def f(%s): return %s" % (params, ret)]
       callee = "C.f"
+    elif kind == "new":
+      # __new__ may return any object: the bound parameters themselves
+      lines.append("  def __new__(cls%s%s): return %s" % (sep, params, ret))
+      callee = "C"
+    elif kind == "new-inherited":
+      # only an inherited __new__, no __init__ anywhere: object.__init__ must
+      # not be bound against the arguments
+      lines.append("  def __new__(cls%s%s): return %s" % (sep, params, ret))
+      lines += ["class C1(C): pass", "class C2(C1):", "  z = 1"]
+      callee = "C2"
+    elif kind == "new-instance-inherited":
+      # __new__ returns a real instance, so __init__ (object's) runs as well;
+      # arity only: which parameter got what is not observable here without
+      # per-instance attributes set in __new__ (known C01 finding)
+      lines.append("  def __new__(cls%s%s): return super().__new__(cls)" % (
+          sep, params))
+      lines += ["class C1(C): pass", "class C2(C1):", "  z = 1"]
+      callee = "C2"
+      names = []
+    elif kind == "constructor-inherited":
+      lines.append("  def __init__(self%s%s): self.got = %s" % (sep, params,
+                                                                 ret))
+      lines += ["class C1(C): pass", "class C2(C1):", "  z = 1"]
+      callee = "C2"
     else:
       lines.append("  def __init__(self%s%s): self.got = %s" % (sep, params,
                                                                  ret))
@@ -194,7 +219,7 @@ def build_module(sig, kind, shapes):
     args = ["P%d()" % i for i in range(npos)] + [
         "%s=KW_%s()" % (n, n) for n in ks]
     expr = "%s(%s)" % (callee, ", ".join(args))
-    if kind == "constructor":
+    if kind in ("constructor", "constructor-inherited"):
       expr += ".got"
     lines.append("r%d = %s" % (k, expr))
     calls.append(expr)
@@ -401,7 +426,7 @@ def plan(tier):
 def run_shard(ctx):
   items = plan(ctx.tier)
   if ctx.quick():
-    items = items[::6]
+    items = items[::7]   # coprime with len(KINDS)=11: every kind is drawn
   for i, (sig, kind, shapes) in enumerate(items):
     if i % ctx.nshards != ctx.shard:
       continue
